@@ -609,12 +609,28 @@ func c03Entry(entry string, data string, mode string) (class string, detail sx.S
 			}
 			_ = root2.SDL(true, true)
 		}
+		// requests against whatever the root holds now: the schema the text defines, or no schema at all
+		// when the load was refused (a server whose schema did not load still answers)
+		// (on a root of its own that has a root object: a nil root object is the application's doing)
+		root3 := ggql.NewRoot(&c02ReflectRoot{})
+		if mode == "" {
+			_ = root3.ParseString(data)
+		} else {
+			_ = root3.ParseReader(newC03Reader(data, mode))
+		}
+		for _, q := range []string{"{__typename}", "{__schema{queryType{name}}}", "mutation{a}", "subscription{a}", "{a{b}}"} {
+			_ = root3.ResolveString(q, "", nil)
+		}
+		_, _ = root3.AddEvent("x", nil)
+		_ = root3.Unsubscribe("x")
 		if err != nil {
 			return "error", "-"
 		}
 		_ = root.SDL(true, true)
 		return "ok", "-"
 	case "exe":
+		// the same request on a root that holds no schema
+		_ = ggql.NewRoot(&c02ReflectRoot{}).ResolveString(data, "", map[string]interface{}{"v1": 1})
 		w := &world{nodes: map[int]*gnode{}, strat: map[int]bool{}, objs: map[int]interface{}{}}
 		w.nodes[1] = &gnode{gotype: 1, fields: map[int]behav{1: {kind: "const", v: sx.L("node", "2")}, 2: {kind: "echo", k: 1}}}
 		w.nodes[2] = &gnode{gotype: 20, fields: map[int]behav{3: {kind: "const", v: sx.L("str", "1")}, 1: {kind: "const", v: sx.L("node", "2")},
